@@ -328,6 +328,19 @@ def violations(repo):
         b.types.append(("badbits", ["bits BadBits:", "  0 [+24]  Sub  s", "  24 [+8]  UInt  x"]))
         return "badbits"
 
+    @v("array-of-structs-inside-bits")
+    def _(rnd, b, info):
+        form = rnd.choice(["  0 [+48]  Sub[2]  s", "  0 [+48]  Sub[]  s", "  0 [+48]  Sub[1][2]  s", "  0 [+24]  Sub[1]  s\n  24 [+24]  UInt  pad"])
+        b.types.append(("badbits", ["bits BadBits:"] + form.split("\n") + ["  48 [+8]  UInt  x"]))
+        return "badbits"
+
+    @v("scalar-in-dynamically-sized-field")
+    def _(rnd, b, info):
+        # a number needs a width of 1..64 bits that is known when the header is generated
+        kind = rnd.choice(["UInt", "Int", "Bcd", "Float", "UInt"])
+        size = rnd.choice(["dynsz", "(dynsz == 0 ? 2 : 4)", "dynsz + 1", "4 * dynsz"]) if kind != "Float" else rnd.choice(["dynsz", "(dynsz == 0 ? 4 : 8)"])
+        return _add_field(b, info, ["  @ [+1]  UInt  dynsz", "  @ [+%s]  %s  bad" % (size, kind)])
+
     @v("float-inside-bits-of-wrong-size")
     def _(rnd, b, info):
         b.types.append(("badbits", ["bits BadBits:", "  0 [+24]  Float  s", "  24 [+8]  UInt  x"]))
